@@ -327,7 +327,12 @@ impl<T: ColumnType> std::fmt::Display for Record<T> {
                 }
                 writeln!(f, "\n{command}")?;
                 if let Some(stdout) = stdout {
-                    writeln!(f, "----\n{}\n", stdout.trim())?;
+                    writeln!(f, "----")?;
+                    // an empty output is already an empty line
+                    if !stdout.trim().is_empty() {
+                        writeln!(f, "{}", stdout.trim())?;
+                    }
+                    writeln!(f)?;
                 }
                 Ok(())
             }
@@ -425,7 +430,10 @@ impl ExpectedError {
     fn fmt_multiline(&self, f: &mut fmt::Formatter<'_>) -> fmt::Result {
         if let Self::Multiline(results) = self {
             writeln!(f, "{}", RESULTS_DELIMITER)?;
-            writeln!(f, "{}", results.trim())?;
+            // an empty message is already an empty line
+            if !results.trim().is_empty() {
+                writeln!(f, "{}", results.trim())?;
+            }
             writeln!(f)?; // another empty line to indicate the end of multiline message
         }
         Ok(())
